@@ -10,8 +10,9 @@ spec/Counter.tla: CounterGuard::drop = {release count; notify_waiters}, Counter:
         waiter's position after every step, then requires the waiter to finish.
   <-B:  unforced runs (threads, blocking pool, tokio tasks; seeded jitter at the points) log every point
         passed with a global sequence number; Trace_Counter accepts a log iff some interleaving of the
-        hidden steps explains it.  Same log taken inside RedbStore while operations are in flight and the
-        store is closed.  A waiter that does not return within the bound is a violation.
+        hidden steps explains it.  RedbStore: operations whose callers are aborted / timed out / dropped
+        mid-flight (CallerCancel in the model), then close(); the harness' own redb storage backend logs every
+        database access of the blocking tasks ("db" lines: a task is running, the waiter is not through).  A waiter that does not return within the bound is a violation.
 """
 import json
 import vf
@@ -29,8 +30,10 @@ ENTRIES = {
                 "1..3 guards (quick: 1, 2 and every 6th for 3; thorough: also every 8th of the 628088 for 4 guards) is forced on real OS threads through cfg(eigerco_lumina_verif) schedule points "
                 "inside counter.rs, comparing count and waiter position with the model after each step and "
                 "requiring the real waiter to return. Unforced multi-thread runs (std threads, blocking pool, "
-                "tokio tasks, seeded jitter at the points) and RedbStore::close with abandoned operations still "
-                "running are logged with atomically drawn sequence numbers and validated by Trace_Counter; a "
+                "tokio tasks, seeded jitter at the points) and RedbStore::close after operations whose callers were "
+                "aborted / timed out / lost a select! / dropped mid-flight (the model's CallerCancel, which must not "
+                "release the count; a storage backend supplied by the harness logs every database access of the "
+                "blocking tasks, so 'a task is still running' is observed independently of the guards) are logged with atomically drawn sequence numbers and validated by Trace_Counter; a "
                 "wait that does not return within 30/60 s after all guards dropped is a violation.",
         "design_ref": "7 C41, A.5",
         "note": "Forced schedules are exhaustive for the stated guard counts only; beyond that sampled. tokio's "
@@ -61,7 +64,12 @@ def run(ck):
     nmax = 3 if ck.quick else 4
     # 1. the design
     mc = ck.cfg_with("MC_Counter.cfg", {"N": nmax})
-    ck.tlc_mc("MC_Counter", mc, required_actions=["Create", "G1", "G2", "W0", "W1", "W2", "W3"])
+    ck.tlc_mc("MC_Counter", mc, required_actions=["Create", "G1", "G2", "CallerCancel", "W0", "W1", "W2", "W3"])
+    # the caller owning the guard (a cancelled caller releases the count while its task runs on) must break Safety
+    gic = ck.cfg_with("MC_Counter.cfg", {"N": 2, "Deviation": '"guard_in_caller"'}, name="MC_Counter_guard_in_caller.cfg")
+    r = ck.tlc_mc("MC_Counter", gic, tag="mc_dev_guard_in_caller", expect_violation="Safety")
+    if not r.get("expected_violation_reproduced"):
+        raise vf.ToolError("vacuity: wrong design guard_in_caller is not rejected by spec/Counter.tla")
     for dev in ["swap_drop", "arm_after_check"]:
         cfg = ck.cfg_with("MC_Counter.cfg", {"N": 3, "Deviation": f'"{dev}"'}, name=f"MC_Counter_{dev}.cfg")
         # (vf.tlc_mc does not recognise TLC's "Temporal property X was violated" wording: parse here)
@@ -94,7 +102,7 @@ def run(ck):
     ck.absorb(s, classify)
     ck.cov["forced_runs_with_drift"] = s.get("extra", {}).get("forced_runs_with_drift")
     # 3. impl -> spec: unforced runs, logs validated by TLC
-    tr_cfg = ck.cfg_with("Trace_Counter.cfg", {"N": 16})
+    tr_cfg = ck.cfg_with("Trace_Counter.cfg", {"N": 24})
     trace = f"{ck.work}/trace.ndjson"
     runs = 1500 if ck.quick else 20000
     s2 = ck.harness(hb, ["record", "counter", "--seed", ck.seed, "--out", trace, "--runs", runs, "--maxguards", 6],
@@ -106,15 +114,18 @@ def run(ck):
                     "redbclose", timeout=3000)
     ck.absorb(s3, classify)
     ck.cov["redb_runs_with_work_in_flight_at_close"] = s3.get("extra", {}).get("redb_runs_with_work_in_flight_at_close")
-    if not ck.cov["redb_runs_with_work_in_flight_at_close"]:
-        raise vf.ToolError("vacuity: RedbStore::close was never called with blocking work in flight")
+    ck.cov["redb_callers_cancelled"] = s3.get("extra", {}).get("redb_callers_cancelled")
+    # measured by the harness' own storage backend (database accesses after close() was called), not by the
+    # guards under test: a tree that releases guards early still counts here and shows up as a VIOLATION
+    if not ck.cov["redb_runs_with_work_in_flight_at_close"] or not ck.cov["redb_callers_cancelled"]:
+        raise vf.ToolError("vacuity: RedbStore::close was never called with blocking work in flight / cancelled callers")
     _validate(ck, tr_cfg, trace2, "redb-close")
     ck.cov["exhaustive"] = True
     ck.cov["rule"] = ("spec->impl: one forced run per behaviour of Gen_Counter (all interleavings of N guards and "
                       "the waiter up to renaming of guards, N = 1..%d); non-trivial = a guard step happens after the "
                       "waiter's first step. impl->spec: one log per unforced run; non-trivial = the waiter started "
-                      "before the last guard finished dropping (distinct logs counted); redb: close() called while "
-                      "a blocking task had not finished." % nmax)
+                      "before the last guard finished dropping (distinct logs counted); redb: the harness' storage backend saw "
+                      "database accesses after close() was called." % nmax)
     ck.assumptions += ["tokio::sync::Notify delivers notify_waiters to every Notified created before the call",
                        "hang bounds: 20 s per forced step / drain, 30 s per unforced wait, 60 s per close()",
                        "guards cannot be created during wait_guards/close in safe Rust (&mut self / self)"]
@@ -141,7 +152,7 @@ def replay(ck):
                 reruns[mode] = max(reruns.get(mode, 0), int(run or 0))
     if open(cases).read().strip():
         ck.absorb(ck.harness(hb, ["replay", "counter", cases], "replay"), classify)
-    tr_cfg = ck.cfg_with("Trace_Counter.cfg", {"N": 16})
+    tr_cfg = ck.cfg_with("Trace_Counter.cfg", {"N": 24})
     for mode, run in reruns.items():
         model = "redbclose" if mode == "redb-close" else "counter"
         trace = f"{ck.work}/rerun_{model}.ndjson"
